@@ -12,57 +12,80 @@ static std::vector<double> scaled(double dim, std::vector<double> v)
 			x *= dim;
 	return v;
 }
-// fresh = true : every call on a copy of the untouched object (case types t1, tr)
-// fresh = false: every call on ONE live object, so the cached index / search-method switch of Locate sees the whole
-//                sequence of queries (case type h1); the model is always the fresh-object semantics.
-static void queries1(vh::Reader& r, vh::Out& o, const Interpolation& base_in, const std::vector<double>& xs, bool fresh = true)
+// One request target.  src != nullptr: every call is made on a copy of the untouched object *src (case types t1, tr);
+// src == nullptr: every call goes to the live object, so the cached index / search-method switch of Locate and anything else
+// that outlives a call sees the whole sequence of requests (case types h1, s1).  log: the primitive calls are recorded so that
+// a session can replay them on fresh objects afterwards.
+struct Call
 {
-	Interpolation live = base_in;
-	struct Pick
+	int tab;
+	char kind;
+	unsigned int k;
+	double x, y;
+};
+struct Target
+{
+	Interpolation* live;
+	const Interpolation* src;
+	std::vector<Call>* log;
+	int tab;
+	Interpolation& obj()
 	{
-		const Interpolation& b;
-		Interpolation& l;
-		bool fresh;
-		operator Interpolation&()
-		{
-			if(fresh)
-				l = b;
-			return l;
-		}
-	};
-	Pick base{base_in, live, fresh};
+		if(src)
+			*live = *src;
+		return *live;
+	}
+	void rec(char kind, unsigned int k, double x)
+	{
+		if(log)
+			log->push_back({tab, kind, k, x, 0.0});
+	}
+	double I(double x)
+	{
+		rec('I', 0, x);
+		return obj().Interpolate(x);
+	}
+	double P(double x)	 // operator()
+	{
+		rec('P', 0, x);
+		Interpolation& f = obj();
+		return f(x);
+	}
+	double D(double x, unsigned int k)
+	{
+		rec('D', k, x);
+		return obj().Derivative(x, k);
+	}
+	long L(double x)
+	{
+		rec('L', 0, x);
+		return obj().Locate(x);
+	}
+};
+static bool queries1(vh::Reader& r, vh::Out& o, Target base, const std::vector<double>& xs)
+{
 	long nq = r.integer();
 	for(long q = 0; q < nq; q++)
 	{
 		std::string op = r.word();
 		if(op == "I")
-		{
-			double x		= r.num();
-			Interpolation& f = base;
-			o.f(f.Interpolate(x));
-		}
+			o.f(base.I(r.num()));
 		else if(op == "D")
 		{
-			long k			= r.integer();
-			double x		= r.num();
-			Interpolation& f = base;
-			o.f(f.Derivative(x, (unsigned int) k));
+			long k	 = r.integer();
+			double x = r.num();
+			o.f(base.D(x, (unsigned int) k));
 		}
 		else if(op == "L")
-		{
-			double x		= r.num();
-			Interpolation& f = base;
-			o.i(f.Locate(x));
-		}
+			o.i(base.L(r.num()));
 		else if(op == "G")
 		{
 			long j = r.integer(), m = r.integer();
 			double x0 = xs[j], x1 = xs[j + 1];
 			for(long k = 0; k <= m; k++)
 			{
-				double x		= (k == m) ? x1 : x0 + (x1 - x0) * double(k) / double(m);
-				Interpolation& f = base;
-				o.f(f(x));
+				double x = (k == m) ? x1 : x0 + (x1 - x0) * double(k) / double(m);
+				o.f(base.P(x));
 			}
 		}
 		else if(op == "K")
@@ -70,15 +93,9 @@ static void queries1(vh::Reader& r, vh::Out& o, const Interpolation& base_in, co
 			double x	  = r.num();
 			double pts[3] = {std::nextafter(x, -INFINITY), x, std::nextafter(x, INFINITY)};
 			for(double p : pts)
-			{
-				Interpolation& f = base;
-				o.f(f.Interpolate(p));
-			}
+				o.f(base.I(p));
 			for(double p : pts)
-			{
-				Interpolation& f = base;
-				o.f(f.Derivative(p, 1));
-			}
+				o.f(base.D(p, 1));
 		}
 		else if(op == "F")
 		{
@@ -86,20 +103,289 @@ static void queries1(vh::Reader& r, vh::Out& o, const Interpolation& base_in, co
 			double pts[3] = {x - d, x, x + d};
 			for(unsigned int k = 0; k <= 2; k++)
 				for(double p : pts)
-				{
-					Interpolation& f = base;
-					o.f(f.Derivative(p, k));
-				}
-			Interpolation& f3 = base;
-			o.f(f3.Derivative(x, 3));
-			Interpolation& f4 = base;
-			o.f(f4.Derivative(x, 4));
+					o.f(base.D(p, k));
+			o.f(base.D(x, 3));
+			o.f(base.D(x, 4));
+		}
+		else if(op == "V")	 // the derivatives first, then the returned curve on a 5-point stencil
+		{
+			double x = r.num(), d = r.num();
+			for(unsigned int k = 1; k <= 3; k++)
+				o.f(base.D(x, k));
+			double pts[5] = {x - 2.0 * d, x - d, x, x + d, x + 2.0 * d};
+			for(double p : pts)
+				o.f(base.I(p));
 		}
 		else
 		{
 			o.w("HARNESSERR unknown_query");
-			return;
+			return false;
 		}
+	}
+	return true;
+}
+static void queries1(vh::Reader& r, vh::Out& o, const Interpolation& base_in, const std::vector<double>& xs, bool fresh = true)
+{
+	Interpolation live = base_in;
+	queries1(r, o, Target{&live, fresh ? &base_in : nullptr, nullptr, 0}, xs);
+}
+struct Target2
+{
+	Interpolation_2D* live;
+	const Interpolation_2D* src;
+	std::vector<Call>* log;
+	int tab;
+	Interpolation_2D& obj()
+	{
+		if(src)
+			*live = *src;
+		return *live;
+	}
+	double I(double x, double y)
+	{
+		if(log)
+			log->push_back({tab, 'I', 0, x, y});
+		return obj().Interpolate(x, y);
+	}
+	double P(double x, double y)
+	{
+		if(log)
+			log->push_back({tab, 'P', 0, x, y});
+		Interpolation_2D& g = obj();
+		return g(x, y);
+	}
+};
+static bool queries2(vh::Reader& r, vh::Out& o, Target2 base, const std::vector<double>& xa, const std::vector<double>& ya)
+{
+	long nq = r.integer();
+	for(long q = 0; q < nq; q++)
+	{
+		std::string qo = r.word();
+		if(qo == "I")
+		{
+			double x = r.num(), y = r.num();
+			o.f(base.I(x, y));
+		}
+		else if(qo == "C")
+		{
+			long i = r.integer(), j = r.integer(), m = r.integer();
+			double x0 = xa[i], x1 = xa[i + 1], y0 = ya[j], y1 = ya[j + 1];
+			for(long a = 0; a <= m; a++)
+			{
+				double x = (a == m) ? x1 : x0 + (x1 - x0) * double(a) / double(m);
+				for(long b = 0; b <= m; b++)
+				{
+					double y = (b == m) ? y1 : y0 + (y1 - y0) * double(b) / double(m);
+					o.f(base.P(x, y));
+				}
+			}
+		}
+		else
+		{
+			o.w("HARNESSERR unknown_query");
+			return false;
+		}
+	}
+	return true;
+}
+// ---- sessions (case types s1, s2): NS slots; a slot is raw storage in which objects are constructed, assigned to, destroyed and
+// constructed again (same address), or a heap object that is deleted and allocated again.  A segment of the case either puts a new
+// table into a slot (A, by one of the modes below), copy-assigns another slot's object (C) or resumes a slot (R), and then sends a
+// list of requests to the live object of that slot.  Modes of A:
+//   a  slot = Class(args)            (assignment from a temporary to the live object; construction if the slot is empty)
+//   p  destroy the slot's object, construct the new one in the same storage (placement new)
+//   h  delete the slot's heap object, allocate the new one (the allocator hands the block out again)
+//   s  a local variable of a function called once per segment (same stack address every time) answers the segment's requests;
+//      the slot receives a copy afterwards
+// After the last segment every recorded primitive call is repeated on a copy of a freshly constructed object of its table
+// (second half of the output): the answers must not depend on what the storage or other objects were used for before.
+template <class C>
+struct Slots
+{
+	static const int NS = 4;
+	alignas(C) unsigned char buf[NS][sizeof(C)];
+	C* ptr[NS]	  = {nullptr, nullptr, nullptr, nullptr};
+	bool heap[NS] = {false, false, false, false};
+	int tab[NS]	  = {-1, -1, -1, -1};
+	void release(int k)
+	{
+		if(!ptr[k])
+			return;
+		if(heap[k])
+			delete ptr[k];
+		else
+			ptr[k]->~C();
+		ptr[k] = nullptr;
+	}
+	template <class Make>
+	void put(int k, char mode, Make make)
+	{
+		if(mode == 'a' && ptr[k])
+			*ptr[k] = make();
+		else if(mode == 'h')
+		{
+			release(k);
+			ptr[k]	= new C(make());
+			heap[k] = true;
+		}
+		else
+		{
+			release(k);
+			ptr[k]	= new(buf[k]) C(make());
+			heap[k] = false;
+		}
+	}
+	void copy(int dst, int src)
+	{
+		if(ptr[dst])
+			*ptr[dst] = *ptr[src];
+		else
+		{
+			ptr[dst]  = new(buf[dst]) C(*ptr[src]);
+			heap[dst] = false;
+		}
+		tab[dst] = tab[src];
+	}
+	~Slots()
+	{
+		for(int k = 0; k < NS; k++)
+			release(k);
+	}
+};
+struct Tab1
+{
+	double xd, fd;
+	std::vector<double> xs, ys, sx;
+	Interpolation make() const { return Interpolation(xs, ys, xd, fd); }
+};
+static bool __attribute__((noinline)) scope_segment1(vh::Reader& r, vh::Out& o, const Tab1& t, std::vector<Call>* log, int tab, Interpolation* keep)
+{
+	Interpolation F(t.xs, t.ys, t.xd, t.fd);
+	bool ok = queries1(r, o, Target{&F, nullptr, log, tab}, t.sx);
+	*keep	= F;
+	return ok;
+}
+static void session1(vh::Reader& r, vh::Out& o)
+{
+	Slots<Interpolation> S;
+	std::vector<Tab1> tabs;
+	std::vector<Call> log;
+	long nseg = r.integer();
+	for(long g = 0; g < nseg; g++)
+	{
+		std::string kind = r.word();
+		int k;
+		if(kind == "A")
+		{
+			char mode = r.word()[0];
+			k		  = (int) r.integer();
+			Tab1 t;
+			t.xd = r.num(), t.fd = r.num();
+			t.xs = r.list(), t.ys = r.list();
+			t.sx = scaled(t.xd, t.xs);
+			tabs.push_back(t);
+			S.tab[k] = (int) tabs.size() - 1;
+			if(mode == 's')
+			{
+				if(!S.ptr[k])
+					S.put(k, 'p', [&] { return t.make(); });
+				if(!scope_segment1(r, o, tabs.back(), &log, S.tab[k], S.ptr[k]))
+					return;
+				continue;
+			}
+			S.put(k, mode, [&] { return t.make(); });
+		}
+		else if(kind == "C")
+		{
+			k		= (int) r.integer();
+			int src = (int) r.integer();
+			S.copy(k, src);
+		}
+		else
+			k = (int) r.integer();
+		if(!queries1(r, o, Target{S.ptr[k], nullptr, &log, S.tab[k]}, tabs[S.tab[k]].sx))
+			return;
+	}
+	// replay on fresh objects
+	std::vector<std::unique_ptr<Interpolation>> base(tabs.size());
+	for(const Call& c : log)
+	{
+		if(!base[c.tab])
+			base[c.tab].reset(new Interpolation(tabs[c.tab].make()));
+		Interpolation f = *base[c.tab];
+		if(c.kind == 'I')
+			o.f(f.Interpolate(c.x));
+		else if(c.kind == 'P')
+			o.f(f(c.x));
+		else if(c.kind == 'D')
+			o.f(f.Derivative(c.x, c.k));
+		else
+			o.i(f.Locate(c.x));
+	}
+}
+struct Tab2
+{
+	double xd, yd, fd;
+	std::vector<double> xs, ys, sx, sy;
+	std::vector<std::vector<double>> f;
+	Interpolation_2D make() const { return Interpolation_2D(xs, ys, f, xd, yd, fd); }
+};
+static bool __attribute__((noinline)) scope_segment2(vh::Reader& r, vh::Out& o, const Tab2& t, std::vector<Call>* log, int tab, Interpolation_2D* keep)
+{
+	Interpolation_2D F(t.xs, t.ys, t.f, t.xd, t.yd, t.fd);
+	bool ok = queries2(r, o, Target2{&F, nullptr, log, tab}, t.sx, t.sy);
+	*keep	= F;
+	return ok;
+}
+static void session2(vh::Reader& r, vh::Out& o)
+{
+	Slots<Interpolation_2D> S;
+	std::vector<Tab2> tabs;
+	std::vector<Call> log;
+	long nseg = r.integer();
+	for(long g = 0; g < nseg; g++)
+	{
+		std::string kind = r.word();
+		int k;
+		if(kind == "A")
+		{
+			char mode = r.word()[0];
+			k		  = (int) r.integer();
+			Tab2 t;
+			t.xd = r.num(), t.yd = r.num(), t.fd = r.num();
+			t.xs = r.list(), t.ys = r.list();
+			t.f	 = r.table();
+			t.sx = scaled(t.xd, t.xs), t.sy = scaled(t.yd, t.ys);
+			tabs.push_back(t);
+			S.tab[k] = (int) tabs.size() - 1;
+			if(mode == 's')
+			{
+				if(!S.ptr[k])
+					S.put(k, 'p', [&] { return t.make(); });
+				if(!scope_segment2(r, o, tabs.back(), &log, S.tab[k], S.ptr[k]))
+					return;
+				continue;
+			}
+			S.put(k, mode, [&] { return t.make(); });
+		}
+		else if(kind == "C")
+		{
+			k		= (int) r.integer();
+			int src = (int) r.integer();
+			S.copy(k, src);
+		}
+		else
+			k = (int) r.integer();
+		if(!queries2(r, o, Target2{S.ptr[k], nullptr, &log, S.tab[k]}, tabs[S.tab[k]].sx, tabs[S.tab[k]].sy))
+			return;
+	}
+	std::vector<std::unique_ptr<Interpolation_2D>> base(tabs.size());
+	for(const Call& c : log)
+	{
+		if(!base[c.tab])
+			base[c.tab].reset(new Interpolation_2D(tabs[c.tab].make()));
+		Interpolation_2D g = *base[c.tab];
+		o.f(c.kind == 'I' ? g.Interpolate(c.x, c.y) : g(c.x, c.y));
 	}
 }
 static void handler(vh::Reader& r, vh::Out& o)
@@ -149,48 +435,13 @@ static void handler(vh::Reader& r, vh::Out& o)
 		std::vector<std::vector<double>> f = r.table();
 		Interpolation_2D base(xs, ys, f, xd, yd, fd);
 		std::vector<double> xa = scaled(xd, xs), ya = scaled(yd, ys);
-		long nq = r.integer();
-		for(long q = 0; q < nq; q++)
-		{
-			std::string qo = r.word();
-			if(qo == "I")
-			{
-				double x = r.num(), y = r.num();
-				if(fresh)
-				{
-					Interpolation_2D g = base;
-					o.f(g.Interpolate(x, y));
-				}
-				else
-					o.f(base.Interpolate(x, y));
-			}
-			else if(qo == "C")
-			{
-				long i = r.integer(), j = r.integer(), m = r.integer();
-				double x0 = xa[i], x1 = xa[i + 1], y0 = ya[j], y1 = ya[j + 1];
-				for(long a = 0; a <= m; a++)
-				{
-					double x = (a == m) ? x1 : x0 + (x1 - x0) * double(a) / double(m);
-					for(long b = 0; b <= m; b++)
-					{
-						double y		   = (b == m) ? y1 : y0 + (y1 - y0) * double(b) / double(m);
-						if(fresh)
-						{
-							Interpolation_2D g = base;
-							o.f(g(x, y));
-						}
-						else
-							o.f(base(x, y));
-					}
-				}
-			}
-			else
-			{
-				o.w("HARNESSERR unknown_query");
-				return;
-			}
-		}
+		Interpolation_2D live = base;
+		queries2(r, o, Target2{&live, fresh ? &base : nullptr, nullptr, 0}, xa, ya);
 	}
+	else if(op == "s1")
+		session1(r, o);
+	else if(op == "s2")
+		session2(r, o);
 	else
 		o.w("HARNESSERR unknown_op");
 }
